@@ -204,6 +204,8 @@ def replay_case(H, case):
     key = case["key"].split(":", 1)[1]
     if key in m.failed:
         return True, f"check '{key}' fails on the real code with these inputs"
+    if "*" in m.failed:
+        return True, f"end-to-end oracle check fails on the real code with these inputs: {getattr(m, 'notes', '')}"
     return False, f"real code passes '{key}' (failed: {m.failed[:3]})"
 
 
